@@ -28,6 +28,7 @@ func init() {
 		ID:    "C01",
 		Level: "model_checking",
 		Rule: "(e) every REPL session of <=3 (thorough 4) lines over a 24-line alphabet fed to the real StartREPL; (a) every own property (Go and native, discovered at run time from every object reachable from the root environment) called through Func#call with every argument tuple (self, a1) over a 67-value pool (including values equal to a cached singleton without being it: Int.bear.new(0), true - true, ...) and (self, a1, a2) over a 13-value pool (thorough: 25), plus 7 kwargs objects on a 13-value pool; " +
+			"(f) every sequence of <=4 (thorough 5) operations {next, A, list chain, reduce chain, _iter, copy, new} on one iterator object and a copy of it, for 12 built-in and literal iterators, each operation under try so that the iterator is polled again after it stopped; " +
 			"(b) every string of <=2 tokens over a 75-spelling token alphabet (joined with and without spaces) and of 3 tokens over 26 token classes (thorough: 3 over 75, 4 over 18), parsed and evaluated as a program, with stdin; " +
 			"(c) x OP y for 23 infix operators over pool^2, prefix operators, x[y], x[y:z], x[y:z:w] over reduced pools through real syntax; " +
 			"(d) 45 producers of unusual values (bodies with return/raise/yield/defer in function, method, iterator, chain, try, eval contexts; every prototype; `_`) x 22 consumer slots; " +
@@ -558,9 +559,46 @@ func sweepREPL(c *core.Ctx, judge judgeFn) {
 	})
 }
 
+// ---------------------------------------------------------------- (f) built-in iterators polled in every order
+
+var iterSources = []string{"[1, 2]", `"ab"`, "(1:3)", "{a: 1, b: 2}", "%{'k: 'v, [1]: 2}", "%{[1]: 2, [2]: 3}", "%{}", "[]", "2", "<{|i| yield i if i < 2; recur(i + 1)}>.new(0)", "(1:3).withI", "[1, 2].chunk(1)"}
+var iterOps = []string{"it.next", "it.A", "it@{|x| x}", "it$(0){|a, x| x}", "it._iter.next", "it2 := it._iter", "it2.next", "it.new.next"}
+
+// sweepIterators: every sequence of <=4 (thorough 5) operations on one iterator object (and a copy of it), each
+// operation in a try so that StopIterErr does not end the program: the iterator is polled again after it stopped.
+func sweepIterators(c *core.Ctx, judge judgeFn) {
+	depth := c.Pick(4, 5)
+	tk.Batched(c, 400, sourcePrelude, func(emit func(scase)) {
+		for _, src := range iterSources {
+			var rec func(ops []string)
+			rec = func(ops []string) {
+				if len(ops) > 0 {
+					var sb strings.Builder
+					sb.WriteString("it := " + src + "._iter\nit2 := it\n")
+					for _, o := range ops {
+						sb.WriteString("nil.try.{|u| " + o + "}\n")
+					}
+					sb.WriteString("[it.try.next.A, it2.try.next.A]")
+					emit(scase{Mode: "iter", Src: sb.String()})
+				}
+				if len(ops) == depth {
+					return
+				}
+				for _, o := range iterOps {
+					rec(append(append([]string{}, ops...), o))
+				}
+			}
+			rec(nil)
+		}
+	}, func(t scase) string { return t.Src }, func(t scase, o panrun.Obs) {
+		judge("iterator history: "+strings.ReplaceAll(t.Src, "\n", "; "), t, t.Src+"\n", o, "iter")
+	})
+}
+
 func run(c *core.Ctx) {
 	judge := newJudge(c)
 	sweepREPL(c, judge)
+	sweepIterators(c, judge)
 	sweepSources(c, judge)
 	sweepTokens(c, judge)
 	sweepProps(c, judge)
